@@ -8,8 +8,8 @@ import (
 
 var (
 	c02SchedUnits = func(tier string) []eng.Unit { return nil }
-	c06SchedUnits = func(tier string) []eng.Unit { return nil }
-	c15SchedUnits = func(tier string) []eng.Unit { return nil }
+	c06SchedUnits = func(tier string) []eng.Unit { return writersUnits("C06", tier) }
+	c15SchedUnits = func(tier string) []eng.Unit { return writersUnits("C15", tier) }
 )
 
 func init() {
@@ -140,4 +140,19 @@ func init() {
 			}), c15SchedUnits(tier)...)
 		},
 	})
+}
+
+func writersUnits(prop, tier string) []eng.Unit {
+	var scs []scenario
+	for _, ws := range writersScenarios() {
+		b := 2
+		if len(ws.threads) == 2 {
+			b = 3
+		}
+		if tier != "quick" {
+			b++
+		}
+		scs = append(scs, scenario{ws.name, b, ws.instance(prop)})
+	}
+	return schedUnits(prop, scs)
 }
